@@ -712,11 +712,11 @@ class Engine:
                     outs.append((s, C(e["cv"])))
                 elif tt.get("w") and stt.get("w") and tt["w"] < stt["w"]:
                     # narrowing: 'xcast' when written explicitly in the source, 'cast' when implicit
-                    outs.append((s, ("xcast" if (e["k"] == "cast" or e.get("poe")) else "cast", tt.get("u") or tt.get("c"), v)))
+                    outs.append((s, self.note_cast(s, fr, ("xcast" if (e["k"] == "cast" or e.get("poe")) else "cast", tt.get("u") or tt.get("c"), v))))
                 elif (e["k"] == "cast" or e.get("poe")) and tt.get("w") and stt.get("w") and tt["w"] == stt["w"] and bool(tt.get("sg")) != bool(stt.get("sg")) and tt.get("k") != "bool":
                     # an EXPLICIT same-width signedness change written in the source: kept visible (implicit usual
                     # arithmetic conversions are what the plain expression performs too and stay transparent)
-                    outs.append((s, ("xcast", tt.get("u") or tt.get("c"), v)))
+                    outs.append((s, self.note_cast(s, fr, ("xcast", tt.get("u") or tt.get("c"), v))))
                 else:
                     outs.append((s, v))
             return outs
@@ -732,6 +732,23 @@ class Engine:
             return self.ev(st, fr, sub)
         raise Inconclusive("unhandled cast kind %s at %s" % (ck, e.get("loc")))
 
+    @staticmethod
+    def note_cast(st, fr, term):
+        """remember in which function(s) a value-changing integer conversion was performed (rules ask whether it was the checked routine)"""
+        key = ("castorigin", term)
+        st.mem[key] = tuple(sorted(set(st.mem.get(key, ()) + (fr.fn["n"],))))
+        return term
+
+    def store_conv(self, st, fr, expr, v):
+        """the outermost implicit same-width signedness change of a value being stored/initialised is value-changing
+        (unlike the usual arithmetic conversions inside an expression) and is kept visible"""
+        if isinstance(expr, dict) and expr.get("k") == "icast" and expr.get("ck") == "IntegralCast":
+            tt = expr.get("t") or {}
+            stt = (expr.get("e") or {}).get("t") or {}
+            if tt.get("w") and stt.get("w") and tt["w"] == stt["w"] and bool(tt.get("sg")) != bool(stt.get("sg")) and tt.get("k") != "bool" and not is_const(v):
+                return self.note_cast(st, fr, ("cast", tt.get("u") or tt.get("c"), v))
+        return v
+
     def ev_assign(self, st, fr, e, want_lv=False):
         outs = []
         lt = e["l"].get("t") or {}
@@ -742,6 +759,7 @@ class Engine:
                     self.copy_object(s2, lv, v)
                     self.emit(s2, "STORE", lv, v, loc=e.get("loc"), extra={"vol": bool(lt.get("vol")), "t": lt, "rec": True})
                 else:
+                    v = self.store_conv(s2, fr, e["r"], v)
                     self.store(s2, lv, v, loc=e.get("loc"), vol=bool(lt.get("vol")), ty=lt)
                 outs.append((s2, lv if want_lv else v))
         return outs
@@ -1016,6 +1034,7 @@ class Engine:
                 self.copy_object(s, target, v)
                 self.emit(s, "STORE", target, v, loc=ie.get("loc"), extra={"rec": True, "init": True})
             else:
+                v = self.store_conv(s, fr, ie, v)
                 self.store(s, target, v, loc=ie.get("loc"), ty=it)
                 s.events[-1].extra["init"] = True
             outs.append(s)
